@@ -3,6 +3,7 @@ package mon
 import (
 	"fmt"
 	"math/rand/v2"
+	"sort"
 	"strings"
 
 	"verif/harness/spec"
@@ -315,6 +316,10 @@ func tokenEdits3(w *W, prefix string, toks []string, m *strMeta, visit strVisito
 	for _, s := range foreignNotations(join3(prefix, toks), false) {
 		visit(w, s, m)
 	}
+	for _, o := range namedOrders(toks) {
+		visit(w, join3(prefix, o), m)
+	}
+	structuralEdits3(w, prefix, toks, m, visit)
 }
 
 // blockMoves visits every relocation of every contiguous block of 2..5 tokens.
@@ -718,3 +723,95 @@ var wrapInts = func() []int {
 	}
 	return out
 }()
+
+// namedOrders returns the token list in orders that other tools produce and that a random shuffle gives with
+// probability 1/n! only: sorted by metric name, by whole token, reversed, by name length, the order of a JSON
+// object's sorted keys, groups exchanged as blocks (base / temporal / environmental in all six arrangements),
+// canonical order rotated.
+func namedOrders(toks []string) [][]string {
+	cp := func() []string { return append([]string(nil), toks...) }
+	name := func(t string) string { n, _, _ := strings.Cut(t, ":"); return n }
+	var out [][]string
+	a := cp()
+	sort.SliceStable(a, func(i, j int) bool { return name(a[i]) < name(a[j]) })
+	out = append(out, a)
+	b := cp()
+	sort.Strings(b)
+	out = append(out, b)
+	c := cp()
+	sort.SliceStable(c, func(i, j int) bool { return name(c[i]) > name(c[j]) })
+	out = append(out, c)
+	d := cp()
+	for i, j := 0, len(d)-1; i < j; i, j = i+1, j-1 {
+		d[i], d[j] = d[j], d[i]
+	}
+	out = append(out, d)
+	e := cp()
+	sort.SliceStable(e, func(i, j int) bool { return len(name(e[i])) < len(name(e[j])) })
+	out = append(out, e)
+	f := cp()
+	sort.SliceStable(f, func(i, j int) bool { return strings.ToLower(name(f[i])) < strings.ToLower(name(f[j])) })
+	out = append(out, f)
+	// the order of the sorted keys of a JSON object that spells the metric names out (NVD cvssData)
+	h := cp()
+	sort.SliceStable(h, func(i, j int) bool { return longName[name(h[i])] < longName[name(h[j])] })
+	out = append(out, h)
+	// groups as blocks
+	var g [3][]string
+	for _, t := range toks {
+		lvl := 0
+		if i := spec.V3Index(name(t)); i >= spec.CR {
+			lvl = 2
+		} else if i >= spec.E {
+			lvl = 1
+		}
+		g[lvl] = append(g[lvl], t)
+	}
+	for _, perm := range [][3]int{{0, 2, 1}, {1, 0, 2}, {1, 2, 0}, {2, 0, 1}, {2, 1, 0}} {
+		var o []string
+		for _, k := range perm {
+			o = append(o, g[k]...)
+		}
+		out = append(out, o)
+	}
+	for _, k := range []int{1, len(toks) / 2, len(toks) - 1} {
+		if k > 0 && k < len(toks) {
+			out = append(out, append(append([]string(nil), toks[k:]...), toks[:k]...))
+		}
+	}
+	return out
+}
+
+var longName = map[string]string{"AV": "attackVector", "AC": "attackComplexity", "PR": "privilegesRequired", "UI": "userInteraction", "S": "scope", "C": "confidentialityImpact", "I": "integrityImpact", "A": "availabilityImpact",
+	"E": "exploitCodeMaturity", "RL": "remediationLevel", "RC": "reportConfidence", "CR": "confidentialityRequirement", "IR": "integrityRequirement", "AR": "availabilityRequirement",
+	"MAV": "modifiedAttackVector", "MAC": "modifiedAttackComplexity", "MPR": "modifiedPrivilegesRequired", "MUI": "modifiedUserInteraction", "MS": "modifiedScope", "MC": "modifiedConfidentialityImpact", "MI": "modifiedIntegrityImpact", "MA": "modifiedAvailabilityImpact"}
+
+// structuralEdits3 visits inputs in which a whole canonical block occurs twice, or in which the text of a
+// canonical block is spliced into the string at a character position (inside another token).
+func structuralEdits3(w *W, prefix string, toks []string, m *strMeta, visit strVisitor) {
+	s := join3(prefix, toks)
+	n := len(toks)
+	for _, k := range []int{1, 2, 3, 8, 11, 14, n} {
+		if k > n {
+			continue
+		}
+		tail := strings.Join(toks[n-k:], "/")
+		head := strings.Join(toks[:k], "/")
+		for _, mid := range []string{"", "/E:P/RL:O/RC:C", "/no such thing ", "/ZZ:N", "/", "/AV:N"} {
+			visit(w, s+mid+"/"+tail, m)          // the last k tokens once more, possibly after something else
+			visit(w, s+"/"+tail+mid+"/"+tail, m) // ... twice more
+			visit(w, s+mid+"/"+head, m)          // the first k tokens once more
+		}
+	}
+	blocks := []string{"/E:X/RL:X/RC:X", "/CR:X/IR:X/AR:X/MAV:X/MAC:X/MPR:X/MUI:X/MS:X/MC:X/MI:X/MA:X", "/E:X", "/MS:X", "/AV:N/AC:L/PR:N/UI:N/S:U/C:H/I:H/A:H", "E:X/RL:X/RC:X/", "/E:X/RL:X/RC:X/", "CVSS:3.1/"}
+	for _, b := range blocks[:2] { // the all-X block twice, with and without something in between
+		for _, mid := range []string{"", "/E:P/RL:O/RC:C", "/no such thing ", "/ZZ:N", "/", "/AV:N", "/CR:H"} {
+			visit(w, s+b+mid+b, m)
+		}
+	}
+	for p := 0; p <= len(s); p++ {
+		for _, b := range blocks {
+			visit(w, s[:p]+b+s[p:], m)
+		}
+	}
+}
